@@ -1,4 +1,5 @@
 import SamVerif.Lemmas.Useful
+import SamVerif.Lemmas.UsefulTerm
 /-!
 # C07 — Exhaustiveness and usefulness analysis of patterns is exact
 
@@ -614,13 +615,66 @@ theorem match_exhaustive_iff (sig : Sig) (cx : Cx) (hcx : CxOk sig cx) (hnd : Si
             have := hun [v] (by simp [hasTys, hv]) (by simp [pmatchAll, hm]) [a] (List.mem_map.mpr ⟨a, hmem, rfl⟩)
             simpa [pmatchAll] using this
           obtain ⟨v, hv, hm⟩ := exists_match sig hinh d t hty hok
-          refine ⟨⟨fun h => by cases h, fun hall => ?_⟩, ?_⟩
+          refine ⟨⟨fun h => (by cases h), fun hall => ?_⟩, ?_⟩
           · obtain ⟨a, hmem, hma⟩ := hall v hv
             rw [hunm v hv hm a hmem] at hma; cases hma
           · intro d' hd'
             simp only [Option.some.injEq] at hd'
             subst hd'
             exact ⟨hty, ⟨v, hv, hm⟩, hunm⟩
+
+/-! ### Termination: the fuel-free statements
+
+`useful_internal` and `incomplete_counterexample_internal` terminate on *every* input (typed or not):
+beyond some amount of fuel the fuelled model functions return one fixed answer
+(measure `(matW P + rowW q, |q|)`, resp. `(matW P, n)`, lexicographic; `Lemmas/UsefulTerm.lean`). -/
+
+theorem useful_terminates (cx : Cx) (P : Matrix) (q : Row) :
+    ∃ n b, ∀ m, n ≤ m → usefulF cx m P q = some b :=
+  useful_terminates_aux cx _ _ P q (Nat.le_refl _) (Nat.le_refl _)
+
+theorem cex_terminates (cx : Cx) (P : Matrix) (n : Nat) :
+    ∃ k r, ∀ m, k ≤ m → cexF cx m P n = some r :=
+  cex_terminates_aux cx _ _ P n (Nat.lt_succ_self _) (Nat.le_refl _)
+
+/-- **Usefulness is decided exactly** (fuel-free): the algorithm terminates, and its answer is
+`true` exactly when `q` is useful with respect to `P`. -/
+theorem useful_exact (sig : Sig) (cx : Cx) (hcx : CxOk sig cx) (hinh : Inhabited' sig)
+    (P : Matrix) (q : Row) (ts : List Nat)
+    (hP : matrixTy sig P ts = true) (hq : patTys sig q ts = true) (hok : okPats q = true) :
+    ∃ n b, (∀ m, n ≤ m → usefulF cx m P q = some b) ∧ (b = true ↔ Useful sig P q ts) := by
+  obtain ⟨n, b, h⟩ := useful_terminates cx P q
+  exact ⟨n, b, h, useful_iff sig cx hcx hinh n P q ts b hP hq hok (h n (Nat.le_refl _))⟩
+
+/-- **If-let, fuel-free**: the check terminates and flags the pattern exactly when it matches every
+value of the scrutinee type. -/
+theorem iflet_exact (sig : Sig) (cx : Cx) (hcx : CxOk sig cx) (hinh : Inhabited' sig)
+    (p : Pat) (t : Nat) (hp : patTy sig p t = true) :
+    ∃ n u, (∀ m, n ≤ m → isAdditionalPatternUsefulF cx m [p] .wild = some u) ∧
+      (u = false ↔ ∀ v, hasTy sig v t = true → pmatch p v = true) := by
+  obtain ⟨n, u, h⟩ := useful_terminates cx ([p].map fun e => [e]) [.wild]
+  exact ⟨n, u, h, iflet_useless_iff sig cx hcx hinh n p t u hp (h n (Nat.le_refl _))⟩
+
+/-- **Match / let, fuel-free**: the exhaustiveness check terminates; it reports nothing exactly when
+every value of the scrutinee type is matched by some arm; and a reported counterexample is a
+well-typed pattern denoting at least one value, none of whose values is matched by any arm. -/
+theorem match_exact (sig : Sig) (cx : Cx) (hcx : CxOk sig cx) (hnd : SigNodup sig) (hinh : Inhabited' sig)
+    (arms : List Pat) (t : Nat) (ha : ∀ a ∈ arms, patTy sig a t = true) :
+    ∃ n res, (∀ m, n ≤ m → incompleteCounterexampleF cx m arms = some res) ∧
+      (res = none ↔ ∀ v, hasTy sig v t = true → ∃ a ∈ arms, pmatch a v = true) ∧
+      (∀ d, res = some d → patTy sig d t = true ∧ (∃ v, hasTy sig v t = true ∧ pmatch d v = true) ∧
+        ∀ v, hasTy sig v t = true → pmatch d v = true → ∀ a ∈ arms, pmatch a v = false) := by
+  obtain ⟨n, r, h⟩ := cex_terminates cx (arms.map fun e => [e]) 1
+  have heq : ∀ m, n ≤ m → incompleteCounterexampleF cx m arms = incompleteCounterexampleF cx n arms := by
+    intro m hm
+    simp only [incompleteCounterexampleF, h m hm, h n (Nat.le_refl _)]
+  cases hr : incompleteCounterexampleF cx n arms with
+  | none =>
+    simp only [incompleteCounterexampleF, h n (Nat.le_refl _)] at hr
+    split at hr <;> simp_all
+  | some res =>
+    exact ⟨n, res, fun m hm => by rw [heq m hm, hr],
+      match_exhaustive_iff sig cx hcx hnd hinh n arms t res ha hr⟩
 
 /-
 Full-strength statement without the side condition `okPats q` (no `nothing()` = `Or([])` inside the
@@ -640,6 +694,13 @@ theorem useful_iff_counterexample :
   cases vs with
   | nil => simp [pmatchAll] at hm
   | cons v vs => simp [pmatchAll, pmatch, pmatchAny] at hm
+
+/-- **Inhabitedness is decidable by a certificate**: on a finite type table, a rank assignment that
+passes the executable check `rankCheck` (every struct field, and all fields of one variant of every
+enum, have a smaller rank) makes every type inhabited, so `Inhabited'` in the theorems above can be
+discharged by computation (the driver computes such ranks for every replayed case). -/
+theorem inhabited_certificate (defs : List Def) (rank : List Nat) (h : rankCheck defs rank = true) :
+    Inhabited' (sigOfTable defs) := inhabited_of_rankCheck defs rank h
 
 /-! ### Non-vacuity: `Option<int>`-like and list-like signatures satisfy the hypotheses, and the
 algorithm gives both answers on them. -/
@@ -674,6 +735,20 @@ theorem sigEx_inhabited : Inhabited' sigEx := by
       split <;> simp_all
     simp [hasTy, this]
 
+theorem sigEx_nodup : SigNodup sigEx := by
+  intro t cls vs h
+  unfold sigEx at h
+  split at h <;> first | (injection h with h1 h2; subst h2; decide) | cases h
+
+/-- the same signature as a finite table, with a rank certificate checked by `decide` -/
+def defsEx : List Def :=
+  [.prim, .enum 0 [(0, []), (1, [0])], .enum 1 [(0, []), (1, [0, 2])], .struct [(0, 1), (1, 2)]]
+
+example : rankCheck defsEx [0, 1, 1, 2] = true := by decide
+example : Inhabited' (sigOfTable defsEx) := inhabited_of_rankCheck defsEx [0, 1, 1, 2] (by decide)
+-- an uninhabited recursive enum `class Inf(More(Inf))` has no certificate with these ranks
+example : rankCheck [.enum 0 [(0, [0])]] [0] = false := by decide
+
 def pNone : Pat := .struct (some ⟨0, 0⟩) []
 def pSome (p : Pat) : Pat := .struct (some ⟨0, 1⟩) [p]
 
@@ -687,6 +762,12 @@ example : isAdditionalPatternUsefulF cxEx 10 [pSome .wild] .wild = some true := 
 -- the theorem instantiates on them
 example : (incompleteCounterexampleF cxEx 10 [pNone, pSome .wild]).map Option.isNone = some true := by decide
 example : (incompleteCounterexampleF cxEx 10 [pNone]).map Option.isSome = some true := by decide
+-- fuel-free, both directions, on the example signature
+example : ∃ n res, (∀ m, n ≤ m → incompleteCounterexampleF cxEx m [pNone, pSome .wild] = some res) ∧
+    (res = none ↔ ∀ v, hasTy sigEx v 1 = true → ∃ a ∈ [pNone, pSome .wild], pmatch a v = true) := by
+  obtain ⟨n, res, h1, h2, _⟩ := match_exact sigEx cxEx sigEx_cxOk sigEx_nodup sigEx_inhabited
+    [pNone, pSome .wild] 1 (by decide)
+  exact ⟨n, res, h1, h2⟩
 example : ∀ v, hasTy sigEx v 1 = true → pmatch (.or [pNone, pSome .wild]) v = true :=
   (iflet_useless_iff sigEx cxEx sigEx_cxOk sigEx_inhabited 10 _ 1 false (by decide) (by decide)).mp rfl
 
